@@ -23,12 +23,16 @@ def main():
     ap.add_argument('--fork-max', type=int, default=8)
     ap.add_argument('--stop-distinct', type=int, default=0)
     ap.add_argument('--uninit-symbolic', action='store_true')
+    ap.add_argument('--fp-precise', action='store_true')
     a = ap.parse_args()
     t0 = time.time()
     mod = ir.parse_module(a.ll)
     eng = symx.Engine(mod, max_steps=a.max_steps, max_paths=a.max_paths, max_depth=a.max_depth, deadline=t0 + a.timeout)
     eng.stop_after = 1 if a.stop_distinct else 0; eng.stop_distinct = a.stop_distinct
     eng.uninit_sym = a.uninit_symbolic
+    if a.fp_precise:
+        import decode as _decode
+        _decode.FP_HOOK[0] = eng.need_fp
     eng.check_leaks = a.leaks; eng.sample_cap = a.samples; eng.FORK_MAX = a.fork_max
     if a.summaries:
         import summaries
